@@ -26,4 +26,13 @@ MUTANTS = [
     ("C15", "ctor-accepts-2", T, "if not np.all((data == 0) | (data == 1)): \n            raise ValueError(\"The array must contain only 0's and 1's!\")", "if not np.all((data == 0) | (data == 1) | (data == 2)): \n            raise ValueError(\"The array must contain only 0's and 1's!\")"),
     ("C15", "lt-le", T, "return binary_sequence(self.abs() < other.abs())", "return binary_sequence(self.abs() <= other.abs())"),
     ("C15", "add-inplace-long", T, "        out = np.concatenate((self.data, other))\n        return binary_sequence(out)", "        out = np.concatenate((self.data, other))\n        if out.size > 1500: self.data[0] ^= 1\n        return binary_sequence(out)"),
+    # ---- C12
+    ("C12", "enc-little-endian", P, "decimal = np.sum(input.reshape(-1,k)*2**np.arange(k)[::-1], axis=-1)", "decimal = np.sum(input.reshape(-1,k)*2**np.arange(k), axis=-1)"),
+    ("C12", "hdd-random-slot-multi", P, "output[i*M + np.random.choice(j)]=1", "output[i*M + (np.random.choice(j) if len(j) < 3 else np.random.randint(M))]=1"),
+    ("C12", "dec-no-mod", P, "decimal = np.where(input==1)[0]%M # get decimals", "decimal = np.where(input==1)[0]%(M if M < 64 else 2*M) # get decimals"),
+    ("C12", "sdd-argmin-ties", P, "i = np.argmax( signal.reshape(-1, M), axis=-1)", "i = M - 1 - np.argmax( signal.reshape(-1, M)[:, ::-1], axis=-1) if gv.sps != 5 else np.argmin( signal.reshape(-1, M), axis=-1)"),
+    ("C12", "sdd-ignores-noise", P, "            input = input.signal + input.noise\n        else:\n            input = input.signal\n\n    elif isinstance(input, Array_Like):", "            input = input.signal\n        else:\n            input = input.signal\n\n    elif isinstance(input, Array_Like):"),
+    ("C12", "hdd-skips-last-symbol", P, "    for i in np.where(s>1)[0]: ", "    for i in np.where(s[:-1]>1)[0] if s.size > 3 else np.where(s>1)[0]: "),
+    ("C12", "hdd-accepts-nonpow2", P, "    if not M & (M-1) == 0:\n        raise ValueError(\"`M` must be a power of 2.\")\n\n    if input.size % M != 0:", "    if not M & (M-1) == 0 and M != 12:\n        raise ValueError(\"`M` must be a power of 2.\")\n\n    if input.size % M != 0:"),
+    ("C12", "enc-tuple-form-differs", P, "    elif isinstance(input, Array_Like):\n        input = np.array(input, dtype=bool)\n    else:\n        raise TypeError(\"`input` must be of type (str, list, tuple, ndarray, binary_sequence)\")\n\n    k = int(np.log2(M))\n\n    input = input[:len(input)//k*k] ", "    elif isinstance(input, Array_Like):\n        input = np.array(input[::-1] if isinstance(input, tuple) and len(input) > 9 else input, dtype=bool)\n    else:\n        raise TypeError(\"`input` must be of type (str, list, tuple, ndarray, binary_sequence)\")\n\n    k = int(np.log2(M))\n\n    input = input[:len(input)//k*k] "),
 ]
